@@ -239,6 +239,8 @@ type EnumOpts struct {
 	// ForceInline lets a rule splice in anchors it wants to see through (they are kept as
 	// plain calls by default).
 	ForceInline func(*ssa.Function) bool
+	// StopDeep applies StopBlock inside spliced helpers too.
+	StopDeep bool
 }
 
 type EnumResult struct {
@@ -439,7 +441,7 @@ func (w *World) enumPaths(fn *ssa.Function, o EnumOpts) EnumResult {
 			}
 			return
 		}
-		if depth == 0 && o.StopBlock != nil && b != start && o.StopBlock(b) {
+		if (depth == 0 || o.StopDeep) && o.StopBlock != nil && b != start && o.StopBlock(b) {
 			n0 := len(res.Paths)
 			finish(f, fmt.Sprintf("stop:%d", b.Index), nil)
 			if len(res.Paths) > n0 {
